@@ -10,6 +10,7 @@ import (
 	"github.com/bluenviron/gortsplib/v5"
 	"github.com/bluenviron/gortsplib/v5/pkg/base"
 	"github.com/bluenviron/gortsplib/v5/pkg/description"
+	"github.com/bluenviron/gortsplib/v5/pkg/headers"
 )
 
 // Writer is the entity under test: one of Client, ServerSession, ServerStream.
@@ -29,7 +30,7 @@ func StartLive(scn Scn) (l *Live, err error) {
 	}()
 
 	h := &handler{}
-	writerIsServer := scn.Entity == "session" || scn.Entity == "sessionrec" || scn.Entity == "stream"
+	writerIsServer := scn.Entity == "session" || scn.Entity == "sessionrec" || scn.Entity == "stream" || scn.Entity == "mcast"
 	l.Tap = newTap()
 
 	var srvTap, cliTap *Tap
@@ -77,7 +78,7 @@ func StartLive(scn Scn) (l *Live, err error) {
 			l.W = cli
 		}
 
-	case "stream", "session", "clientplay", "clientaxisplay":
+	case "stream", "session", "clientplay", "clientaxisplay", "mcast":
 		// the client plays a stream of the server
 		medi := newMedia(false)
 		st := &gortsplib.ServerStream{Server: srv, Desc: &description.Session{Medias: []*description.Media{medi}}}
@@ -96,6 +97,16 @@ func StartLive(scn Scn) (l *Live, err error) {
 		}
 		cli.Scheme = u.Scheme
 		cli.Host = u.Host
+		var mcDest string
+		var mcPorts [2]int
+		cli.OnResponse = func(res *base.Response) {
+			var th headers.Transport
+			if v, ok := res.Header["Transport"]; ok && th.Unmarshal(v) == nil && th.Destination2 != nil && th.Ports != nil {
+				h.mu.Lock()
+				mcDest, mcPorts = *th.Destination2, *th.Ports
+				h.mu.Unlock()
+			}
+		}
 		if err = cli.Start(); err != nil {
 			return l, fmt.Errorf("client start: %w", err)
 		}
@@ -103,6 +114,13 @@ func StartLive(scn Scn) (l *Live, err error) {
 		d, _, derr := cli.Describe(u)
 		if derr != nil {
 			return l, fmt.Errorf("describe: %w", derr)
+		}
+		if scn.TLS && !scn.SRTP {
+			// the server's SDP announces SAVP; ask for plain RTP inside the TLS connection instead
+			// (what a client does that does not implement SRTP)
+			for _, m := range d.Medias {
+				m.Profile = headers.TransportProfileAVP
+			}
 		}
 		if err = cli.SetupAll(d.BaseURL, d.Medias); err != nil {
 			return l, fmt.Errorf("setup: %w", err)
@@ -114,6 +132,26 @@ func StartLive(scn Scn) (l *Live, err error) {
 		l.session = h.session
 		h.mu.Unlock()
 		switch scn.Entity {
+		case "mcast":
+			intf, _, merr := mcastInterface()
+			if merr != nil {
+				return l, merr
+			}
+			h.mu.Lock()
+			dest, ports := mcDest, mcPorts
+			h.mu.Unlock()
+			if dest == "" {
+				return l, fmt.Errorf("no multicast destination in the SETUP response")
+			}
+			for _, port := range ports {
+				stop, rerr := mcastReceiver(l.Tap, intf, fmt.Sprintf("%s:%d", dest, port), port)
+				if rerr != nil {
+					return l, fmt.Errorf("multicast receiver: %w", rerr)
+				}
+				l.closers = append(l.closers, stop)
+			}
+			time.Sleep(30 * time.Millisecond)
+			l.Media, l.W = medi, st
 		case "stream":
 			l.Media, l.W = medi, st
 		case "session":
